@@ -3,6 +3,7 @@ import Tmv.Lemmas.ConsLock2
 import Tmv.Lemmas.ConsGuard
 import Tmv.Lemmas.ConsQuorum
 import Tmv.Lemmas.ConsMoves
+import Tmv.Lemmas.CommitGlue
 /-! # C02 — a correct validator never equivocates and every vote it casts is justified
 
 Theorems about the node model `Tmv.Cons` (Tmv/Model/Cons.lean), which follows
@@ -198,6 +199,75 @@ theorem prevote_respects_lock_scheduled (c : Cfg) (is : List Input) (h : Timeout
         maj23Of ((run c .init is).votes.prevotes (r'' : Int)) = some y :=
   prevote_respects_lock c is (scheduled_timeouts_suffice c is h)
 
+/-- **makeCommit_sound** (`types.VoteSet.MakeCommit`, every input list, no hypothesis): whenever the
+precommit set of a round `r` has a recorded +2/3 majority for block `b`, `makeCommit` yields a commit for
+`b` with one flag per validator such that
+* a slot is flagged "commit" exactly if its canonical vote is for `b` (same block id: a vote for another
+  id — other hash or other part-set header — is marked absent), and "nil" exactly if it is a nil vote;
+  empty slots and votes for other blocks are never flagged,
+* every slot flagged "commit" holds a well-formed precommit `(r, b)` of that validator that was delivered
+  to the node (own index, own address, intact signature by its own key) or that the node signed itself,
+* the flagged slots carry more than two thirds of the total power. -/
+theorem makeCommit_sound (c : Cfg) (is : List Input) (r b : Nat) (vs : VoteSet)
+    (hv : (run c .init is).votes.precommits (r : Int) = some vs) (hm : vs.maj23 = some (some b)) :
+    ∃ flags, vs.makeCommit c.n = some (some b, flags) ∧ flags.length = c.n ∧
+      (∀ i, i < c.n → (flags.getD i .absent = .commit ↔ alookup vs.votes i = some (some b))) ∧
+      (∀ i, i < c.n → (flags.getD i .absent = .nil ↔ alookup vs.votes i = some none)) ∧
+      (∀ i, i < c.n → flags.getD i .absent = .commit →
+        (deliveredBy is .precommit (r : Int) (some b) i ||
+         ownVote c (run c .init is).out .precommit (r : Int) (some b) i) = true) ∧
+      2 * c.total < 3 * commitPower c flags := by
+  have hdv := run_DV (c := c) is init_D init_V
+  simp only [List.nil_append] at hdv
+  have hcs : Tmv.Net.CSh (run c .init is).votes := run_CS is Tmv.Net.CSh.init
+  have hq : QH c (run c .init is).votes := run_Q is (QH.init c)
+  have hg : (run c .init is).votes.getVoteSet (r : Int) .precommit = some vs := hv
+  exact VoteSet.makeCommit_sound c _ vs b hm (hdv.1.ms.getVoteSet hg) (hdv.2.getVoteSet hg)
+    (hcs.getVoteSet hg) (hq.getVoteSet hg)
+
+/-- the commit a node stores when it decides is `makeCommit` of the precommits of its commit round, and
+that set has the decided block as its recorded majority -/
+theorem decided_has_majority (c : Cfg) (is : List Input) (b : Nat) (r : Int)
+    (hd : (run c .init is).decided = some (b, r)) :
+    (run c .init is).commitRound = r ∧ maj23Of ((run c .init is).votes.precommits r) = some (some b) :=
+  run_PostD is (Tmv.Net.PostD.of_none rfl) b r hd
+
+/-- **stored_commit_passes_verifyCommit** (C02 → C07): when the node has decided block `b` in round `r`,
+the commit `MakeCommit` builds from the precommits of that round — concretised as a `types.Commit` by any
+`Glue` (chain id, height, concrete block ids, addresses, and the timestamp and signature stored with each
+validator's precommit) — is accepted by the `VerifyCommit` model of Tmv/Model/CommitVerify.lean against
+the node's validator set for exactly `b`'s block id, provided
+* the total power respects `MaxTotalVotingPower` and `b`'s block id is well-formed and non-zero,
+* ideal signatures: the signature stored with a well-formed precommit that was delivered to the node (or
+  that it signed itself) verifies under that validator's key over the canonical sign bytes of that vote. -/
+theorem stored_commit_passes_verifyCommit {σ : Type} (g : Glue σ)
+    (sigOK : Nat → Tmv.CommitVerify.SignBytes → σ → Bool) (c : Cfg) (is : List Input) (b r : Nat)
+    (hd : (run c .init is).decided = some (b, (r : Int)))
+    (hmax : (c.total : Int) ≤ Tmv.CommitVerify.maxTotalVotingPower)
+    (hvb : (g.bidOf b).validBasic = true) (hnz : (g.bidOf b).isZero = false)
+    (hsig : ∀ i bid, (deliveredBy is .precommit (r : Int) bid i ||
+        ownVote c (run c .init is).out .precommit (r : Int) bid i) = true →
+      sigOK i (g.signBytes r bid i) (g.sigOf i r bid) = true) :
+    ∃ vs flags, (run c .init is).votes.precommits (r : Int) = some vs ∧
+      vs.makeCommit c.n = some (some b, flags) ∧
+      Tmv.CommitVerify.verifyCommit sigOK (g.vals c) g.chainID (g.bidOf b) g.height
+        (g.commit c r b vs flags) = .ok := by
+  obtain ⟨_, hmaj⟩ := decided_has_majority c is b r hd
+  cases hv : (run c .init is).votes.precommits (r : Int) with
+  | none => rw [hv] at hmaj; simp [maj23Of] at hmaj
+  | some vs =>
+    rw [hv] at hmaj
+    have hm : vs.maj23 = some (some b) := by simpa [maj23Of] using hmaj
+    obtain ⟨flags, hmk, hlen, hc, hn, _, hp⟩ := makeCommit_sound c is r b vs hv hm
+    refine ⟨vs, flags, rfl, hmk, ?_⟩
+    have hdv := run_DV (c := c) is init_D init_V
+    simp only [List.nil_append] at hdv
+    have hvd := hdv.2.getVoteSet (t := .precommit) hv
+    apply Glue.verifyCommit_ok g sigOK c r b vs flags hlen hc hn hp hmax hvb hnz
+    intro i hi bid hvote _
+    have := (hvd i bid hvote).2
+    exact hsig i bid (by simpa [Ev] using this)
+
 /-! ### Non-vacuity and a witness -/
 
 /-- 4 validators of power 1, we are validator 0 and the proposer of round 0 -/
@@ -257,6 +327,33 @@ example :
     NoFutureTimeout (exCfg true 0) .init is ∧
     (run (exCfg true 0) .init is).lockedBlock = none ∧
     Output.signVote .prevote 2 none ∈ (run (exCfg true 0) .init is).out := by decide
+
+/-- a history in which the node (proposer of round 0) decides its own block in round 0 -/
+def exDecide : List Input :=
+  [.timeout 0 .newHeight, exPv 0 (some 0) 1, exPv 0 (some 0) 2, exPc 0 (some 0) 1, exPc 0 (some 0) 2]
+
+/-- the hypotheses of `makeCommit_sound` / `stored_commit_passes_verifyCommit` are met by it … -/
+example : (run (exCfg true 0) .init exDecide).decided = some (0, 0) := by decide
+
+def exSB (r : Nat) (bid : Bid) : Tmv.CommitVerify.SignBytes :=
+  ⟨Tmv.CommitVerify.precommitType, 1, r, bid.map (fun b => ⟨List.replicate 32 (UInt8.ofNat b), 1, List.replicate 32 0⟩), 0, "c"⟩
+
+/-- … and by an ideal-signature instantiation of the glue (a signature is the pair (key, sign bytes)) -/
+def exGlue : Glue (Nat × Tmv.CommitVerify.SignBytes) where
+  chainID := "c"
+  height := 1
+  bidOf := fun b => ⟨List.replicate 32 (UInt8.ofNat b), 1, List.replicate 32 0⟩
+  addrOf := fun i => [UInt8.ofNat i]
+  tsOf := fun _ => 0
+  sigOf := fun i r bid => (i, exSB r bid)
+
+example : (exGlue.bidOf 0).validBasic = true ∧ (exGlue.bidOf 0).isZero = false ∧
+    ((exCfg true 0).total : Int) ≤ Tmv.CommitVerify.maxTotalVotingPower ∧
+    ∀ i r bid, (fun k sb (sg : Nat × Tmv.CommitVerify.SignBytes) => decide (sg = (k, sb))) i
+      (exGlue.signBytes r bid i) (exGlue.sigOf i r bid) = true := by
+  refine ⟨by decide, by decide, by decide, ?_⟩
+  intro i r bid
+  simp [Glue.signBytes, exGlue, exSB]
 
 /-- the history of the witness below: validator 1 (not the proposer) prevotes nil at the propose
 timeout, then receives the proposal and its block, then a timeout naming round 1 — which it has not
